@@ -67,6 +67,12 @@ def store(path, case, order, strategy, second_scale=False):
         if rep == 1:
             buf[:] = b"\xee" * len(buf)
     acc.close()
+    if second_scale and case["seed"] % 2:
+        # the info is revised through the same accessor before the second
+        # scale is written (as get_IO_for_new_dataset(overwrite_info=True)
+        # does): the scale not written yet gets other sharding parameters
+        info["scales"][1]["sharding"] = revised_sharding(case)
+        acc.store_file("info", json.dumps(info).encode(), overwrite=True)
     if second_scale:
         # a later scale written through the same accessor after a close(),
         # exactly as compute_dyadic_scales does
@@ -75,6 +81,13 @@ def store(path, case, order, strategy, second_scale=False):
             acc.store_chunk(arr.tobytes()[::-1], "s1", cc)
         acc.close()
     return info
+
+
+def revised_sharding(case):
+    mini, shard, pre = case["bits"]
+    flip = {"raw": "gzip", "gzip": "raw"}
+    return ds.sharding_dict(shard % 3, mini + 1, (pre + 1) % 3,
+                            flip[case["index_enc"]], flip[case["data_enc"]])
 
 
 def shard_tree(path):
@@ -170,6 +183,47 @@ def read_back(ctx, path, case, order, what):
                          "returns an array" % (what, list(pos)))
 
 
+def read_back_second(ctx, path, case, order, what):
+    """The second scale, through a freshly opened accessor and through the
+    reader written from the format description (with the info on disk)."""
+    from neuroglancer_scripts import accessor
+    acc = accessor.get_accessor_for_url(path)
+    with open(os.path.join(path, "info")) as f:
+        info = json.load(f)
+    s1 = info["scales"][1]
+    for pos in order:
+        arr, cc = chunk_array(case, pos)
+        want = arr.tobytes()[::-1]
+        try:
+            got = acc.fetch_chunk("s1", cc)
+        except Exception as exc:
+            ctx.fail("%s: fetch of chunk %s of the second scale failed with "
+                     "%s: %s (grid %s bits %s, sharding of the scale %s)" % (
+                         what, list(pos), type(exc).__name__, exc,
+                         case["grid"], case["bits"], s1["sharding"]))
+        if bytes(got) != want:
+            ctx.fail("%s: chunk %s of the second scale reads back as %r..., "
+                     "stored %r... (sharding of the scale %s)" % (
+                         what, list(pos), bytes(got[:8]), want[:8],
+                         s1["sharding"]))
+        sh = s1["sharding"]
+        params = {k: sh.get(k, "raw" if k.endswith("encoding") else None)
+                  for k in ("minishard_bits", "shard_bits", "preshift_bits",
+                            "minishard_index_encoding", "data_encoding")}
+        # (zlib streams where gzip is declared are C04's listed finding;
+        # accepted here)
+        from vlib.refs import sharded_spec
+        ref = sharded_spec.read(os.path.join(path, "s1"), params,
+                                sc.chunk_id(pos, case["grid"]),
+                                strict_gzip=False)
+        if ref != want:
+            ctx.fail("%s: a reader following the format description finds "
+                     "%r for chunk %s of the second scale, stored %r... "
+                     "(sharding of the scale %s)" % (
+                         what, None if ref is None else ref[:8], list(pos),
+                         want[:8], s1["sharding"]))
+
+
 def check_case(ctx, case):
     order1 = [tuple(p) for p in case["order"]]
     order2 = [tuple(p) for p in case["order2"]]
@@ -205,6 +259,9 @@ def check_case(ctx, case):
                              diff, case["grid"], case["bits"],
                              case["index_enc"], case["data_enc"]))
         read_back(ctx, os.path.join(base, "h1"), case, order1, "history 1")
+        if case.get("two_scales", False):
+            read_back_second(ctx, os.path.join(base, "h1"), case, order1,
+                             "history 1")
         return True
     finally:
         ctx.rmtree(base)
